@@ -73,13 +73,17 @@ def spec_spellings(cols, bars):
         out.append(['at', k, 0])
         if bars[k]:
             out.append(['at', k, 1])
-    for i in range(n):
-        for k in range(1, n - i + 1):
-            if len(set(cols[i:i + k])) == 1:
-                if len(set(bars[i + 1:i + k + 1])) == 1:
-                    out.append(['star', i, k, 'post'])
-                if len(set(bars[i:i + k])) == 1:
-                    out.append(['star', i, k, 'pre'])
+    for u in (1, 2):
+        for i in range(n):
+            for k in range(1, (n - i) // u + 1):
+                if u > 1 and k < 2:
+                    continue
+                w = u * k
+                if all(cols[i + j] == cols[i + j % u] for j in range(w)):
+                    if all(bars[i + 1 + j] == bars[i + 1 + j % u] for j in range(w)):
+                        out.append(['star', i, k, 'post', u])
+                    if all(bars[i + j] == bars[i + j % u] for j in range(w)):
+                        out.append(['star', i, k, 'pre', u])
     seen = set()
     res = []
     for sp in out:          # several descriptors can print the same text: keep the first
@@ -112,18 +116,19 @@ def print_spec(cols, bars, spell):
         return s + G[n]
     if kind == 'star':
         i, k, mode = spell[1], spell[2], spell[3]
+        u = spell[4] if len(spell) > 4 else 1
         s = ''
-        if mode == 'post':
-            for j in range(i):
-                s += G[j] + C[j]
-            s += G[i] + '*{%d}{%s%s}' % (k, C[i], G[i + 1])
-            for j in range(i + k, n):
-                s += C[j] + G[j + 1]
-            return s
         for j in range(i):
             s += G[j] + C[j]
-        s += '*{%d}{%s%s}' % (k, G[i], C[i])
-        for j in range(i + k, n):
+        if mode == 'post':
+            unit = ''.join(C[i + j] + G[i + j + 1] for j in range(u))
+            s += G[i] + '*{%d}{%s}' % (k, unit)
+            for j in range(i + u * k, n):
+                s += C[j] + G[j + 1]
+            return s
+        unit = ''.join(G[i + j] + C[i + j] for j in range(u))
+        s += '*{%d}{%s}' % (k, unit)
+        for j in range(i + u * k, n):
             s += G[j] + C[j]
         return s + G[n]
     raise ValueError(spell)
@@ -140,6 +145,9 @@ def mc_bars(mcspec):
 NESTED = {'env': 'tabular', 'cols': 'lr', 'bars': [1, 1, 0], 'spell': ['plain'],
           'rows': [[[1, None, 'M'], [1, None, 'M']], [[1, None, 'M'], [1, 'c|', 'M']]],
           'rules': [[1, None], [0, None], [1, None]], 'final': 1}
+NESTED_ARRAY = {'env': 'array', 'cols': 'cc', 'bars': [0, 1, 0], 'spell': ['plain'],
+                'rows': [[[1, None, 'M'], [1, None, 'M']], [[1, None, 'M'], [1, None, 'M']]],
+                'rules': [[0, None], [1, None], [0, None]], 'final': 0}
 IN_ITEM = {'env': 'tabular', 'cols': 'll', 'bars': [0, 1, 0], 'spell': ['plain'],
            'rows': [[[1, None, 'M'], [1, None, 'M']], [[2, 'c', 'M']]],
            'rules': [[0, None], [1, None], [0, None]], 'final': 0}
@@ -174,6 +182,9 @@ def cell_body(kind, m, outer, dev):
     if kind == 'NT':
         s, e = build_table(NESTED, m, outer, dev)
         return s, (e,)
+    if kind == 'NA':
+        s, e = build_table(NESTED_ARRAY, m, outer, dev)
+        return '$%s$' % s, (e,)
     if kind == 'LI':
         a, b = m(), m()
         return ('\\begin{itemize}\\item %s \\item %s\\end{itemize}' % (a, b),
@@ -210,10 +221,10 @@ def build_table(ast, m, outer, dev=()):
     out = [head, nl]
 
     def rule_src(b):
-        nh, cl = rules[b]
-        s = '\\hline' * nh
-        if cl:
-            s += '\\cline{%d-%d}' % (cl[0], cl[1])
+        s = '\\hline' * rules[b][0]
+        for cl in rules[b][1:]:
+            if cl:
+                s += '\\cline{%d-%d}' % (cl[0], cl[1])
         return s
 
     exp_rows = []
@@ -250,7 +261,7 @@ def build_table(ast, m, outer, dev=()):
             col += span
         out.append(amp.join(cells_src))
         exp_rows.append(tuple(cells_exp))
-        if i < r - 1 or ast.get('final') or rules[r][0] or rules[r][1]:
+        if i < r - 1 or ast.get('final') or any(rules[r]):
             out.append((' ' if not tight else '') + term)
             if tight and term[-1].isalpha():
                 out.append(' ')
@@ -270,11 +281,12 @@ def build_table(ast, m, outer, dev=()):
         return res
 
     for b in range(r + 1):
-        nh, cl = rules[b]
-        if nh:
+        if rules[b][0]:
             for j in range(n):
                 H.add((b, j))
-        if cl:
+        for cl in rules[b][1:]:
+            if not cl:
+                continue
             lo, hi = cl
             if CLINE_SKIP_SPAN in dev:
                 # literal model of BorderCommand.applyBorders on the row the command is attached to
